@@ -137,10 +137,14 @@ func VerifC08_EPkgCall() {
 	evalSrc(env, "(in-package 'p) (in-package 'q) (in-package 'user)")
 	env.PutGlobal(lisp.Symbol("p:g"), lisp.Int(vp))
 	env.PutGlobal(lisp.Symbol("q:g"), lisp.Int(vq))
-	failKind := vndChoice("fail", 4) // 0 succeeds, 1 error in the only form, 2 error in a NON-final body form, 3 error in the final form of several
-	fail := failKind != 0
+	failKind := vndChoice("fail", 6) // 0 succeeds, 1 error in the only form, 2 error in a NON-final body form, 3 error in the final form of several, 4 EMPTY body, 5 body ending in an empty-bodied inner call
+	fail := failKind >= 1 && failKind <= 3
 	body := "g"
 	switch failKind {
+	case 4:
+		body = ""
+	case 5:
+		body = "(set 'seen g) ((lambda ()))"
 	case 1:
 		body = "(progn (set 'seen g) (error 'boom 1))"
 	case 2:
@@ -150,17 +154,23 @@ func VerifC08_EPkgCall() {
 	}
 	r := evalSrc(env, "(in-package 'p) (export 'f) (defun f () "+body+") (in-package 'q)")
 	vAssert(r.Type != lisp.LError, "definitions load")
-	via := vndChoice("via", 3)
-	calls := []string{"(p:f)", "(funcall 'p:f)", "(let ((h p:f)) (h))"}
+	via := vndChoice("via", 5)
+	calls := []string{"(p:f)", "(funcall 'p:f)", "(let ((h p:f)) (h))", "(apply p:f ())", "(car (map 'list (lambda (x) (p:f)) '(1)))"}
 	res := evalSrc(env, calls[via])
 	if fail {
 		vAssert(res.Type == lisp.LError && res.Str == "boom", "the error propagates")
 		seen := evalSrc(env, "p:seen")
 		vAssert(seen.Type == lisp.LInt && seen.Int == vp, "the body ran with its defining package current")
-	} else {
+	} else if failKind == 0 {
 		vAssert(res.Type == lisp.LInt && res.Int == vp, "an unqualified global in a function body resolves in the function's defining package, not the caller's")
+	} else {
+		vAssert(res.IsNil(), "an empty body has the value (): "+outcome(res))
 	}
-	vAssert(env.Runtime.Package.Name == "q", "the caller's package is restored after the call, also on error")
+	vAssert(env.Runtime.Package.Name == "q", "the caller's package is restored after the call, also on error and for an empty body")
+	// a later binding made by the caller lands in the caller's package
+	evalSrc(env, "(set 'later 42)")
+	lq := evalSrc(env, "q:later")
+	vAssert(lq.Type == lisp.LInt && lq.Int == 42, "a binding made after the call lands in the caller's package")
 	// the caller catches the error and goes on IN THE SAME EVALUATION: its own package must be current again
 	cont := evalSrc(env, "(progn (ignore-errors "+calls[via]+") (set 'after g) (list g after))")
 	vAssert(cont.Type != lisp.LError && len(cont.Cells) == 2 && cont.Cells[0].Type == lisp.LInt && cont.Cells[0].Int == vq, "after a caught error from a function of another package the caller's code resolves globals in the caller's package again")
@@ -172,6 +182,23 @@ func VerifC08_EPkgCall() {
 	}
 	own := evalSrc(env, "g")
 	vAssert(own.Type == lisp.LInt && own.Int == vq, "the caller still sees its own binding")
+	// pkg:name reaches the binding OF THE PACKAGE, whatever lexical bindings of the bare name are
+	// in scope and whichever package is current (also the package itself)
+	quals := []string{
+		"(let ((g 1234)) q:g)",
+		"((lambda (g) q:g) 77)",
+		"(let* ((g 1) (h q:g)) h)",
+		"(flet ((g () 5)) q:g)",
+		"(dotimes (g 1 q:g) g)",
+	}
+	qi := vndChoice("qual", len(quals))
+	qv := evalSrc(env, quals[qi])
+	vAssert(qv.Type == lisp.LInt && qv.Int == vq, "a qualified reference to the current package's own binding is not captured by a lexical binding of the bare name: "+quals[qi]+" gave "+outcome(qv))
+	evalSrc(env, "(in-package 'p) (export 'h) (defun h (g) (list g p:g)) (in-package 'q)")
+	hv := evalSrc(env, "(p:h 5)")
+	vAssert(hv.Type != lisp.LError && len(hv.Cells) == 2 && hv.Cells[0].Int == 5 && hv.Cells[1].Type == lisp.LInt && hv.Cells[1].Int == vp, "inside a function of p, p:g is p's global even when a formal is named g")
+	lo := evalSrc(env, "(let ((only-lexical 1)) q:only-lexical)")
+	vAssert(lo.Type == lisp.LError, "a name bound only lexically is not reachable as pkg:name")
 	vCover("end")
 }
 
